@@ -132,6 +132,16 @@ def mk_complex(T, abi):
     add('neg', f'{ld("a")} {V} R = -A; {st}', loop('o[i]=-a[i];'), [A(), O()])
     add('bcast_ctor', f'{V} R(a[0]); {st}', loop('o[i]=a[0];'), [A('a', 1), O()])
     add('conj', f'{ld("a")} {V} R = conj(A); {st}', loop('o[i]=std::conj(a[i]);'), [A(), O()])
+    # in-place forms and division (reference: the textbook quotient (a*conj(b))/|b|^2 written on components, no libcall)
+    R_ = T[1:]
+    for nm, cop in (('add', '+'), ('sub', '-'), ('mul', '*')):
+        add(f'{nm}_ip', f'{ld("a")} {ld("b")} A {cop}= B; A.store(o,false);', loop(f'o[i]=a[i]{cop}b[i];'), [A(), A('b'), O()])
+    add('mul_ip_s', f'{ld("a")} A *= b[0]; A.store(o,false);', loop('o[i]=a[i]*b[0];'), [A(), A('b', 1), O()])
+    quo = lambda x, y: (f'{{ {R_} ar={x}.real(), ai={x}.imag(), br={y}.real(), bi={y}.imag(); {R_} d=br*br+bi*bi; o[i]={X}((ar*br+ai*bi)/d,(ai*br-ar*bi)/d); }}')
+    add('div_vv', f'{ld("a")} {ld("b")} {V} R = A / B; {st}', loop(quo('a[i]', 'b[i]')), [A(), A('b'), O()])
+    add('div_ip', f'{ld("a")} {ld("b")} A /= B; A.store(o,false);', loop(quo('a[i]', 'b[i]')), [A(), A('b'), O()])
+    add('div_vs', f'{ld("a")} {V} R = A / b[0]; {st}', loop(quo('a[i]', 'b[0]')), [A(), A('b', 1), O()])
+    add('div_ip_s', f'{ld("a")} A /= b[0]; A.store(o,false);', loop(quo('a[i]', 'b[0]')), [A(), A('b', 1), O()])
     add('hsum', f'{ld("a")} o[0]=A.sum();', f'{X} s=0; for(int i=0;i<{L};++i) s+=a[i]; o[0]=s;', [A(), O(1)])
     return out
 
@@ -150,7 +160,7 @@ def cfgs(tier): return [Cfg(i, 17, 'O2') for i in (build.MAIN_ISAS if tier == 'q
 
 def bounds(tier):
     return {'types': ALLT, 'abis_per_isa': ABIS, 'ops_per_specialisation': len(mk('float', 'sse', tier)),
-            'outside': 'complex division / abs / arg, shift(), multi-argument set(), cast<>, rcp/rsqrt accuracy, fixed_size<N> generic vectors of other element types'}
+            'outside': 'complex abs / arg / norm, scalar-by-vector complex division, shift(), multi-argument set(), cast<>, rcp/rsqrt accuracy, fixed_size<N> generic vectors of other element types'}
 
 
 def on_compile_fail(case, cfg, cf): return 'skip'
